@@ -393,46 +393,153 @@ fn gen_case(r: &mut Rng, single: bool) -> (Vec<Q>, Vec<String>, Opts) {
     (dedup(&q), tags, opts)
 }
 
+/// what json-ld-core 0.15.1 is known to do differently from the specification when rdfDirection is
+/// set (third-party code, outside /repo): no rdf:value/rdf:language/rdf:direction triples for
+/// compound literals, and no '_' in the i18n datatype when there is no language.
+fn known_parser_quirks(q: &[Q], dir: u8) -> Vec<Q> {
+    q.iter().filter(|q| !(dir == 2 && matches!(&q.0[0], SimpleTerm::BlankNode(b) if b.as_str().starts_with('L')) && [rdf("value"), rdf("language"), rdf("direction")].contains(&q.0[1])))
+        .map(|q| { let mut q = q.clone(); if let SimpleTerm::LiteralDatatype(l, d) = &q.0[2] { if let Some(r) = d.as_str().strip_prefix(&format!("{I18N}_")) { q.0[2] = lit_dt(l, &format!("{I18N}{r}")); } } q }).collect()
+}
+
 /// the property oracle: Some(description) when the round trip fails.  Two readers are applied to the
 /// emitted document: sophia's JsonLdParser (the property as stated) and the reference reader above.
 fn iso(expected: &Vec<Q>, back: &Vec<Q>) -> bool { isomorphic_datasets(expected, back).unwrap_or(false) }
-fn oracle(quads: &[Q], o: &Opts) -> Option<String> {
+fn oracle(quads: &[Q], o: &Opts, ser: &Result<String, String>) -> Option<String> {
     let expected: Vec<Q> = quads.iter().filter(|q| expressible(q)).cloned().collect();
-    let txt = match serialise(quads, o) { Ok(t) => t, Err(e) => return Some(format!("SERIALIZER FAILS: {e}")) };
+    let txt = match ser { Ok(t) => t, Err(e) => return Some(format!("SERIALIZER FAILS: {e}")) };
     let flat = txt.split_whitespace().collect::<Vec<_>>().join(" ");
-    let reference = read_json(&txt).and_then(|j| reference_to_rdf(&j, o.dir)).map(|b| dedup(&b));
-    match &reference {
+    let reference = read_json(txt).and_then(|j| reference_to_rdf(&j, o.dir));
+    let ref_back = match &reference {
         Err(e) => return Some(format!("SERIALIZER OUTPUT INVALID (reference reader): {e}; document: {flat}")),
-        Ok(back) if !iso(&expected, back) => return Some(format!("SERIALIZER LOSES INFORMATION (reference reader): read back {} quads [{}] instead of {}; document: {flat}", back.len(), show_ds(back), expected.len())),
-        _ => {}
-    }
-    match parse_back(&txt, o).map(|b| dedup(&b)) {
+        Ok(back) => dedup(back),
+    };
+    if !iso(&expected, &ref_back) { return Some(format!("SERIALIZER LOSES INFORMATION (reference reader): read back {} quads [{}] instead of {}; document: {flat}", ref_back.len(), show_ds(&ref_back), expected.len())); }
+    match parse_back(txt, o).map(|b| dedup(&b)) {
         Err(e) => Some(format!("PARSER REJECTS a document the reference reader round-trips: {e}; document: {flat}")),
-        Ok(back) if !iso(&expected, &back) => Some(format!("PARSER DIVERGES from the reference reader: parsed back {} quads [{}] instead of {}; document: {flat}", back.len(), show_ds(&back), expected.len())),
+        Ok(back) if !iso(&expected, &back) => {
+            let quirk = dedup(&known_parser_quirks(reference.as_ref().unwrap(), o.dir));
+            if o.dir != 0 && iso(&quirk, &back) { Some(format!("PARSER (json-ld-core 0.15.1, rdfDirection={}) DIVERGES from the specification in the known way: parsed back {} quads [{}] instead of {}; document: {flat}", if o.dir == 1 { "i18n-datatype: no '_' before the direction when there is no language" } else { "compound-literal: no rdf:value/rdf:direction/rdf:language triples" }, back.len(), show_ds(&back), expected.len())) }
+            else { Some(format!("PARSER DIVERGES from the reference reader: parsed back {} quads [{}] instead of {}; document: {flat}", back.len(), show_ds(&back), expected.len())) }
+        }
         _ => None,
     }
+}
+
+// ------------------------------------------------------------------ Coq side
+struct Intern { ids: Vec<(String, u64, ST)>, next: u64 }
+impl Intern {
+    fn new() -> Self {
+        let mut i = Intern { ids: vec![], next: 10 };
+        for (k, n) in ["first", "rest", "nil", "type", "List", "value", "direction", "language"].iter().enumerate() { i.ids.push((key_t(&rdf(n)), k as u64 + 1, rdf(n))); }
+        i
+    }
+    fn id(&mut self, t: &ST) -> u64 {
+        let k = key_t(t);
+        if let Some(e) = self.ids.iter().find(|e| e.0 == k) { return e.1; }
+        self.next += 1; self.ids.push((k, self.next, t.clone())); self.next
+    }
+    fn find(&self, t: &ST) -> Option<u64> { let k = key_t(t); self.ids.iter().find(|e| e.0 == k).map(|e| e.1) }
+    fn table(&self) -> String {
+        coq_list(self.ids.iter().map(|(_, n, t)| format!("({n}, {})", match t {
+            SimpleTerm::Iri(_) => "I".to_string(), SimpleTerm::BlankNode(_) => "B".to_string(),
+            SimpleTerm::LiteralLanguage(..) => "Lit false false false".to_string(),
+            SimpleTerm::LiteralDatatype(l, d) => { let plain = d.as_str() == format!("{XSD}string"); format!("Lit {} {} {}", coq_bool(plain), coq_bool(plain && (&**l == "ltr" || &**l == "rtl")), coq_bool(plain && sophia_api::term::LanguageTag::new(&**l).is_ok() && !l.bytes().any(|b| b.is_ascii_uppercase()))) }
+            _ => "other_info".to_string() })))
+    }
+}
+fn coq_quad(i: &mut Intern, q: &Q) -> String { format!("mkQ {} {} {} {}", i.id(&q.0[0]), i.id(&q.0[1]), i.id(&q.0[2]), coq_opt(q.1.as_ref().map(|g| i.id(g).to_string()))) }
+fn canon_obj(j: &J) -> String { canon_json(j) }
+/// value object of each literal of the dataset, obtained from the implementation itself on a one-quad dataset
+fn literal_objects(quads: &[Q], o: &Opts, i: &mut Intern) -> Vec<(String, u64)> {
+    let mut out = vec![]; let mut seen = BTreeSet::new();
+    for q in quads { if !expressible(q) { continue; } let l = &q.0[2]; if !matches!(l, SimpleTerm::LiteralDatatype(..) | SimpleTerm::LiteralLanguage(..)) || !seen.insert(key_t(l)) { continue; }
+        let one: Vec<Q> = vec![([ex("s"), ex("p"), l.clone()], None)];
+        if let Ok(txt) = serialise(&one, o) { if let Ok(j) = read_json(&txt) { if let Some(v) = j.arr().ok().and_then(|a| a.first()).and_then(|n| n.get("http://e/p")).and_then(|v| v.arr().ok()).and_then(|a| a.first()) { out.push((canon_obj(v), i.id(l))); } } } }
+    out
+}
+fn coq_val(v: &J, lits: &[(String, u64)], i: &mut Intern) -> Result<String, String> {
+    if let Some(l) = v.get("@list") { return Ok(format!("JList [] {}", coq_list(l.arr()?.iter().map(|x| coq_val(x, lits, i).map(|s| format!("({s})"))).collect::<Result<Vec<_>, _>>()?))); }
+    if v.get("@value").is_some() {
+        if let Some(e) = lits.iter().find(|e| e.0 == canon_obj(v)) { return Ok(format!("JLit {}", e.1)); }
+        if let (Some(val), Some(d)) = (v.get("@value"), v.get("@direction")) {
+            let f = |i: &mut Intern, x: &J| -> Result<u64, String> { i.find(&plain(x.str()?)).ok_or_else(|| format!("compound literal component {x:?} is not a plain literal of the input")) };
+            let l = match v.get("@language") { Some(l) => Some(f(i, l)?.to_string()), None => None };
+            return Ok(format!("JComp 0 {} {} {}", f(i, val)?, f(i, d)?, coq_opt(l)));
+        }
+        return Err(format!("value object {} corresponds to no literal of the input", canon_obj(v)));
+    }
+    if let Some(x) = v.get("@id") { return Ok(format!("JRef {}", i.id(&RefRdf::id_term(x.str()?)))); }
+    Err(format!("unrecognised value {v:?}"))
+}
+fn coq_node(n: &J, lits: &[(String, u64)], i: &mut Intern) -> Result<String, String> {
+    let J::Obj(entries) = n else { return Err("node object expected".into()) };
+    let id = i.id(&RefRdf::id_term(n.get("@id").ok_or("no @id")?.str()?));
+    let mut types = vec![]; let mut props = vec![];
+    for (k, v) in entries {
+        match k.as_str() {
+            "@id" | "@graph" => {}
+            "@type" => for t in v.arr()? { types.push(i.id(&RefRdf::id_term(t.str()?)).to_string()); },
+            k => { let vs = v.arr()?.iter().map(|x| coq_val(x, lits, i)).collect::<Result<Vec<_>, _>>()?; props.push(format!("({}, {})", i.id(&iri(k)), coq_list(vs))); }
+        }
+    }
+    Ok(format!("mkJ {id} {} {}", coq_list(types), coq_list(props)))
+}
+fn coq_doc(doc: &J, lits: &[(String, u64)], i: &mut Intern) -> Result<String, String> {
+    let tops = doc.arr()?.iter().map(|n| {
+        let g = match n.get("@graph") { Some(g) => Some(coq_list(g.arr()?.iter().map(|m| coq_node(m, lits, i)).collect::<Result<Vec<_>, _>>()?)), None => None };
+        Ok(format!("mkTop ({}) {}", coq_node(n, lits, i)?, coq_opt(g)))
+    }).collect::<Result<Vec<_>, String>>()?;
+    Ok(coq_list(tops))
 }
 
 fn main() {
     let a = parse_args();
     quiet_panics();
+    let single = a.rest.iter().any(|x| x == "--single");
+    let verbose = a.rest.iter().any(|x| x == "--verbose");
     let mut sum = Summary::default();
-    sum.rule = "case = (dataset of <= ~25 quads built from noise quads + 1..3 shapes, options)".into();
+    sum.rule = "case = (dataset of up to ~30 quads = noise quads + 1..3 shapes among: lists (well-formed, unreferenced head, shared, branching, cyclic through rdf:rest or rdf:first, typed rdf:List, extra property, split across graphs, cell reused as subject/graph name elsewhere, copied in two graphs, nested, rdf:nil items), rdf:type with IRI/blank/literal objects, compound-literal shapes, i18n datatypes, rdf:JSON literals, quads JSON-LD cannot express; options = processing mode x use_rdf_type x rdf_direction x indentation); non-trivial = the dataset has an rdf:rest or rdf:direction quad, or at least two graphs; distinct = distinct (dataset, options)".into();
     let base = Rng::new(a.seed);
     let range: Vec<usize> = match a.only { Some(i) => vec![i], None => (0..a.n).collect() };
-    let mut by_tag: BTreeMap<String, (u64, u64, String)> = BTreeMap::new();
+    let mut by_tag: BTreeMap<String, (u64, u64)> = BTreeMap::new();
+    let mut cases = vec![]; let mut seen = BTreeSet::new();
     for idx in range {
         let mut r = base.fork(idx as u64);
-        let (quads, tags, opts) = gen_case(&mut r, a.rest.iter().any(|x| x == "--single"));
-        let res = oracle(&quads, &opts);
+        let (quads, tags, opts) = gen_case(&mut r, single);
+        let ser = serialise(&quads, &opts);
+        let res = oracle(&quads, &opts, &ser);
         sum.evaluations += 1;
-        for t in &tags { let e = by_tag.entry(t.clone()).or_default(); e.0 += 1; if let Some(d) = &res { e.1 += 1; if e.2.is_empty() { e.2 = format!("case {idx} [{}] {} => {d}", opts.show(), show_ds(&quads)); } } }
+        let graphs: BTreeSet<String> = quads.iter().map(|q| q.1.as_ref().map(key_t).unwrap_or_default()).collect();
+        let nontrivial = graphs.len() >= 2 || quads.iter().any(|q| q.0[1] == rdf("rest") || q.0[1] == rdf("direction"));
+        if nontrivial && seen.insert(format!("{:?}{}", opts, show_ds(&quads))) { sum.distinct_nontrivial += 1; }
+        for t in &tags { let e = by_tag.entry(t.clone()).or_default(); e.0 += 1; if res.is_some() { e.1 += 1; } }
+        sum.bump(&format!("mode:{}", if opts.mode10 { "1.0" } else { "1.1" }));
+        sum.bump(&format!("rdf_direction:{}", ["none", "i18n-datatype", "compound-literal"][opts.dir as usize]));
+        if opts.use_rdf_type { sum.bump("use_rdf_type"); } if opts.spaces > 0 { sum.bump("indented"); }
         if let Some(d) = &res {
-            if a.rest.iter().any(|x| x == "--verbose") { println!("FAIL {idx} {tags:?} [{}] {} => {d}", opts.show(), show_ds(&quads)); }
-            sum.oracle_failures.push((idx.to_string(), format!("shapes {tags:?}; options {}; dataset: {} => {d}", opts.show(), show_ds(&quads))));
+            if verbose { println!("FAIL {idx} {tags:?} [{}] {} => {d}", opts.show(), show_ds(&quads)); }
+            sum.bump(&format!("oracle:{}", d.split(':').next().unwrap_or("").split('(').next().unwrap_or("").trim()));
+            sum.oracle_failures.push((idx.to_string(), format!("{d}; shapes {tags:?}; options {}; dataset: {}", opts.show(), show_ds(&quads))));
         }
-        if a.only.is_some() { println!("CASE {idx}: {tags:?} {} :: {}\n => {:?}\n{}", opts.show(), show_ds(&quads), res, serialise(&quads, &opts).unwrap_or_default()); }
+        if sum.samples.len() < 5 && nontrivial && idx % 7 == 0 { sum.samples.push(format!("case {idx} [{}] {} => {}", opts.show(), show_ds(&quads), ser.clone().unwrap_or_else(|e| e).split_whitespace().collect::<Vec<_>>().join(" "))); }
+        // Coq case
+        let mut it = Intern::new();
+        let cq = coq_list(quads.iter().map(|q| coq_quad(&mut it, q)));
+        let lits = literal_objects(&quads, &opts, &mut it);
+        let observed = match &ser { Ok(txt) => read_json(txt).and_then(|j| coq_doc(&j, &lits, &mut it)), Err(e) => Err(e.clone()) };
+        let copts = format!("(mkOpts {} {} {})", coq_bool(opts.mode10), coq_bool(opts.use_rdf_type), coq_bool(opts.dir == 2));
+        let body = match &observed {
+            Ok(doc) => format!("let t := {} in let d := {cq} in c12_ok t {copts} d {doc} && roundtrip_ok t {copts} d 1000", it.table()),
+            Err(e) => format!("false (* no document to compare: {} *)", e.replace("*)", "* )").replace("(*", "( *")),
+        };
+        if a.only.is_some() { println!("CASE {idx}: {tags:?} {} :: {}\n => oracle {:?}\n{}\nCoq: {body}", opts.show(), show_ds(&quads), res, ser.clone().unwrap_or_else(|e| e)); }
+        cases.push((idx, body));
     }
-    for (t, (n, f, ex)) in &by_tag { println!("{f:5}/{n:5} {t}\n        {ex}"); }
-    println!("c12: {} cases, {} oracle failures", sum.evaluations, sum.oracle_failures.len());
+    for (t, (n, f)) in &by_tag { sum.bump_by(&format!("shape:{t}"), *n); if verbose { println!("{f:5}/{n:5} {t}"); } }
+    if a.only.is_none() {
+        sum.shards = write_shards(&a.out, "From Sophia.C12 Require Import Model.\n", &cases, a.shards);
+        sum.extra.push(("coq_cases".into(), cases.len().to_string()));
+        std::fs::write(format!("{}/summary.json", a.out), sum.to_json()).unwrap();
+    }
+    println!("c12: {} cases, {} distinct non-trivial, {} oracle failures", sum.evaluations, sum.distinct_nontrivial, sum.oracle_failures.len());
 }
